@@ -18,8 +18,17 @@ func init() { register("C20", checkC20) }
 // ---------- symbolic printing of pure SSA expressions ----------
 
 type symCtx struct {
-	fn   *ssa.Function
-	phis map[*ssa.Phi]ssa.Value // resolved phi edges on the current path
+	fn    *ssa.Function
+	phis  map[*ssa.Phi]ssa.Value // resolved phi edges on the current path
+	P     *Prog                  // optional: fields are printed by their canonical role
+	names map[ssa.Value]string   // optional: names for the function's parameters
+}
+
+func (sc *symCtx) fieldName(f *types.Var) string {
+	if sc.P != nil {
+		return sc.P.roleName(f)
+	}
+	return f.Name()
 }
 
 func (sc *symCtx) sym(v ssa.Value, depth int) string {
@@ -33,6 +42,9 @@ func (sc *symCtx) sym(v ssa.Value, depth int) string {
 	}
 	switch x := v.(type) {
 	case *ssa.Parameter:
+		if n, ok := sc.names[x]; ok {
+			return n
+		}
 		for i, p := range sc.fn.Params {
 			if p == x {
 				if i == 0 {
@@ -169,10 +181,10 @@ func (sc *symCtx) sym(v ssa.Value, depth int) string {
 	case *ssa.FieldAddr:
 		_, f := fieldVar(x)
 		s := sc.sym(x.X, depth+1)
-		return "&" + strings.TrimPrefix(s, "&") + "." + f.Name()
+		return "&" + strings.TrimPrefix(s, "&") + "." + sc.fieldName(f)
 	case *ssa.Field:
 		_, f := fieldVar(x)
-		return sc.sym(x.X, depth+1) + "." + f.Name()
+		return sc.sym(x.X, depth+1) + "." + sc.fieldName(f)
 	case *ssa.IndexAddr:
 		return "&" + strings.TrimPrefix(sc.sym(x.X, depth+1), "&") + "[" + sc.sym(x.Index, depth+1) + "]"
 	case *ssa.Index:
@@ -205,9 +217,15 @@ func (sc *symCtx) sym(v ssa.Value, depth int) string {
 		}
 		if ci.dynamic {
 			name = "call " + sc.sym(x.Call.Value, depth+1)
-			// a function value known on this path (a method expression handed to a helper)
-			if f, ok := cv(x.Call.Value).(*ssa.Function); ok {
+			// a function value known on this path (a method expression or method value handed to a helper)
+			switch f := cv(x.Call.Value).(type) {
+			case *ssa.Function:
 				name = strings.TrimSuffix(strings.ReplaceAll(f.String(), "github.com/Oudwins/", ""), "$thunk")
+			case *ssa.MakeClosure:
+				if bf, ok := f.Fn.(*ssa.Function); ok && strings.HasSuffix(bf.Name(), "$bound") && len(f.Bindings) == 1 {
+					name = strings.TrimSuffix(strings.ReplaceAll(bf.String(), "github.com/Oudwins/", ""), "$bound")
+					args = append([]string{sc.sym(f.Bindings[0], depth+1)}, args...)
+				}
 			}
 		}
 		if ci.invoke != nil {
@@ -308,6 +326,12 @@ func (P *Prog) predicateShape(fn *ssa.Function) predShape {
 	return sh
 }
 
+// predicateShapeNamed: the shape of fn with its parameters printed under the given names and
+// fields under their canonical roles (not memoised).
+func (P *Prog) predicateShapeNamed(fn *ssa.Function, names map[ssa.Value]string) predShape {
+	return P.predicateShape2(fn, nil, names)
+}
+
 // formulaHelper: an unexported module function (not a method of an exported
 // API type's contract) whose body is entered when a formula is rendered, so
 // that moving part of a predicate into a helper leaves the formula unchanged.
@@ -325,6 +349,10 @@ func formulaHelper(f *ssa.Function) bool {
 // path is the conjunction of its branch conditions, rendered symbolically, and
 // the rendered return value.
 func (P *Prog) predicateShape1(fn *ssa.Function, env map[ssa.Value]ssa.Value) predShape {
+	return P.predicateShape2(fn, env, nil)
+}
+
+func (P *Prog) predicateShape2(fn *ssa.Function, env map[ssa.Value]ssa.Value, names map[ssa.Value]string) predShape {
 	var sh predShape
 	loops := naturalLoops(fn)
 	if len(loops) > 1 {
@@ -335,6 +363,9 @@ func (P *Prog) predicateShape1(fn *ssa.Function, env map[ssa.Value]ssa.Value) pr
 		sh.loop = &loops[0]
 	}
 	sc := &symCtx{fn: fn, phis: map[*ssa.Phi]ssa.Value{}}
+	if names != nil {
+		sc.P, sc.names = P, names
+	}
 	spec := &pathSpec{name: "formula", inlineAll: true, symbolicLoopPhis: true}
 	spec.keep = func(f *ssa.Function) bool {
 		if f.Parent() != nil {
@@ -800,32 +831,32 @@ func (P *Prog) runeIntervals(fn *ssa.Function, l *natLoop) (string, bool) {
 // Frozen from the documented predicate (properties.jsonl C20 and
 // docs/docs/reference.md) after confirming each against the SSA by hand.
 var c20Table = map[string]struct{ form, doc string }{
-	"min/generic":      {"(len(*val.(*T)) >= $0)", "len(value) >= n, inclusive"},
-	"max/generic":      {"(len(*val.(*T)) <= $0)", "len(value) <= n, inclusive"},
-	"len/generic":      {"(len(*val.(*T)) == $0)", "len(value) == n"},
-	"min/slice":        {"((reflect.Value).Kind(RV) == 23) ∧ ((reflect.Value).Len(RV) >= $0)", "slice length >= n"},
-	"max/slice":        {"((reflect.Value).Kind(RV) == 23) ∧ ((reflect.Value).Len(RV) <= $0)", "slice length <= n"},
-	"len/slice":        {"((reflect.Value).Kind(RV) == 23) ∧ ((reflect.Value).Len(RV) == $0)", "slice length == n"},
-	"eq/generic":       {"(*val.(*T) == $0)", "value == n on the destination type"},
-	"lte/generic":      {"(*val.(*T) <= $0)", "value <= n"},
-	"gte/generic":      {"(*val.(*T) >= $0)", "value >= n"},
-	"lt/generic":       {"(*val.(*T) < $0)", "value < n"},
-	"gt/generic":       {"(*val.(*T) > $0)", "value > n"},
-	"one_of_options/generic": {"[i in [0, len($0))] ∃: reflect.DeepEqual(*val.(*T), $0[i])", "membership by deep equality"},
-	"contained/slice":  {"[i in [0, (reflect.Value).Len(RV))] ∃: ((reflect.Value).Kind(RV) == 23) ∧ reflect.DeepEqual((reflect.Value).Interface((reflect.Value).Index(RV, i)), $0)", "some element deep-equals the value"},
-	"prefix/string":    {"strings.HasPrefix(string(*val.(*T)), string($0))", "strings.HasPrefix(value, prefix)"},
-	"suffix/string":    {"strings.HasSuffix(string(*val.(*T)), string($0))", "strings.HasSuffix(value, suffix)"},
-	"contained/string": {"strings.Contains(string(*val.(*T)), string($0))", "strings.Contains(value, sub)"},
+	"min/generic":             {"(len(*val.(*T)) >= $0)", "len(value) >= n, inclusive"},
+	"max/generic":             {"(len(*val.(*T)) <= $0)", "len(value) <= n, inclusive"},
+	"len/generic":             {"(len(*val.(*T)) == $0)", "len(value) == n"},
+	"min/slice":               {"((reflect.Value).Kind(RV) == 23) ∧ ((reflect.Value).Len(RV) >= $0)", "slice length >= n"},
+	"max/slice":               {"((reflect.Value).Kind(RV) == 23) ∧ ((reflect.Value).Len(RV) <= $0)", "slice length <= n"},
+	"len/slice":               {"((reflect.Value).Kind(RV) == 23) ∧ ((reflect.Value).Len(RV) == $0)", "slice length == n"},
+	"eq/generic":              {"(*val.(*T) == $0)", "value == n on the destination type"},
+	"lte/generic":             {"(*val.(*T) <= $0)", "value <= n"},
+	"gte/generic":             {"(*val.(*T) >= $0)", "value >= n"},
+	"lt/generic":              {"(*val.(*T) < $0)", "value < n"},
+	"gt/generic":              {"(*val.(*T) > $0)", "value > n"},
+	"one_of_options/generic":  {"[i in [0, len($0))] ∃: reflect.DeepEqual(*val.(*T), $0[i])", "membership by deep equality"},
+	"contained/slice":         {"[i in [0, (reflect.Value).Len(RV))] ∃: ((reflect.Value).Kind(RV) == 23) ∧ reflect.DeepEqual((reflect.Value).Interface((reflect.Value).Index(RV, i)), $0)", "some element deep-equals the value"},
+	"prefix/string":           {"strings.HasPrefix(string(*val.(*T)), string($0))", "strings.HasPrefix(value, prefix)"},
+	"suffix/string":           {"strings.HasSuffix(string(*val.(*T)), string($0))", "strings.HasSuffix(value, suffix)"},
+	"contained/string":        {"strings.Contains(string(*val.(*T)), string($0))", "strings.Contains(value, sub)"},
 	"contains_upper/string":   {"[runes of string(*val.(*T))] runes∈{[65,90]}", "an ASCII upper-case letter A-Z"},
 	"contains_digit/string":   {"[runes of string(*val.(*T))] runes∈{[48,57]}", "an ASCII digit 0-9"},
 	"contains_special/string": {"[runes of string(*val.(*T))] runes∈{[33,47],[58,64],[91,96],[123,126]}", "an ASCII punctuation character"},
-	"after/time":       {"(time.Time).After(*val.(*time.Time), $0)", "value.After(t)"},
-	"before/time":      {"(time.Time).Before(*val.(*time.Time), $0)", "value.Before(t)"},
-	"eq/time":          {"(time.Time).Equal(*val.(*time.Time), $0)", "value.Equal(t) (instants, not ==)"},
-	"match/string":     {"(*regexp.Regexp).MatchString($0, string(*val.(*T)))", "regex.MatchString(value) on the given regex"},
-	"email/string":     {"(*regexp.Regexp).MatchString(@REGEXP, string(*val.(*T)))", "package-level e-mail regexp, compiled once"},
-	"uuid/string":      {"(*regexp.Regexp).MatchString(@REGEXP, string(*val.(*T)))", "package-level UUID regexp, compiled once"},
-	"url/string":       {"(net/url.Parse(string(*val.(*T)))#1 == nil) ∧ (net/url.Parse(string(*val.(*T)))#0.Scheme != \"\") ∧ (net/url.Parse(string(*val.(*T)))#0.Host != \"\")", "url.Parse succeeds with non-empty scheme and host"},
+	"after/time":              {"(time.Time).After(*val.(*time.Time), $0)", "value.After(t)"},
+	"before/time":             {"(time.Time).Before(*val.(*time.Time), $0)", "value.Before(t)"},
+	"eq/time":                 {"(time.Time).Equal(*val.(*time.Time), $0)", "value.Equal(t) (instants, not ==)"},
+	"match/string":            {"(*regexp.Regexp).MatchString($0, string(*val.(*T)))", "regex.MatchString(value) on the given regex"},
+	"email/string":            {"(*regexp.Regexp).MatchString(@REGEXP, string(*val.(*T)))", "package-level e-mail regexp, compiled once"},
+	"uuid/string":             {"(*regexp.Regexp).MatchString(@REGEXP, string(*val.(*T)))", "package-level UUID regexp, compiled once"},
+	"url/string":              {"(net/url.Parse(string(*val.(*T)))#1 == nil) ∧ (net/url.Parse(string(*val.(*T)))#0.Scheme != \"\") ∧ (net/url.Parse(string(*val.(*T)))#0.Host != \"\")", "url.Parse succeeds with non-empty scheme and host"},
 }
 
 func checkC20(P *Prog, r *Result) {
